@@ -506,7 +506,7 @@ package dataflow
 //@ func InterProceduralFlowGraph.resolveCalleeSummary
 //@   property C17 C09
 //@   option havoc:PopulateGraphFromSummary
-//@   requires g != nil && node != nil && g.AnalyzerState != nil
+//@   requires g != nil && node != nil && g.AnalyzerState != nil && g.AnalyzerState.Logger != nil
 //@   ensures callsite_registered: result != nil ==> has(result.Callsites, node.CallSite()) && result.Callsites[node.CallSite()] != nil
 
 // ---------------------------------------------------------------------------
@@ -530,7 +530,7 @@ package dataflow
 // map range.
 //@ func IntraAnalysisState.propagateToReferrer
 //@   property C01 C08
-//@   requires state != nil && ref != nil && ref(ref) != 0
+//@   requires state != nil
 //@   ensures store: istype(ref, *ssa.Store) && ref.(*ssa.Store).Val == v && lang.IsNillableType(ref.(*ssa.Store).Val.Type()) ==> called(markValue, state, i, ref.(*ssa.Store).Addr, path, mark)
 //@   ensures load: istype(ref, *ssa.UnOp) && ref.(*ssa.UnOp).Op == token.MUL ==> called(markValue, state, i, ref.(*ssa.UnOp), path, mark)
 //@   ensures receive: istype(ref, *ssa.UnOp) && ref.(*ssa.UnOp).Op == token.ARROW ==> called(markValue, state, i, ref.(*ssa.UnOp), path, mark)
